@@ -29,6 +29,7 @@ func c15One(x *ctx, c LoadCase, useBinary, binaryOnFail bool) bool {
 	dir := newCaseDir(x.root)
 	defer os.RemoveAll(dir)
 	r := loadInProcess(dir, c)
+	r.release()
 	x.res.Evaluations++
 	switch {
 	case r.hang:
